@@ -1550,6 +1550,9 @@ class QuicConnection:
             tls.Epoch.HANDSHAKE: QuicStream(),
             tls.Epoch.ONE_RTT: QuicStream(),
         }
+        # forget the packets of a previous attempt (Retry, Version Negotiation)
+        for space in self._loss.spaces:
+            self._loss.discard_space(space)
         self._spaces = {
             tls.Epoch.INITIAL: QuicPacketSpace(),
             tls.Epoch.HANDSHAKE: QuicPacketSpace(),
